@@ -184,10 +184,11 @@ def run_driver(exe, tier, prop, nshards=None, deadline=None, env=None, case_time
     per_kind = {}
     for idx, kind, msg in crashes:
         per_kind[kind] = per_kind.get(kind, 0) + 1
-        if per_kind[kind] > 8:  # same failure kind many times: the first 8 were replayed twice each; the rest are attributed by the status page only
+        # the first few instances of each failure kind are replayed twice in a fresh process; the rest are attributed from the status page
+        if per_kind[kind] > (1 if kind == "hang" else 4):
             fails.append((idx, kind, describe(exe, tier, idx, env, extra), msg + " (attributed from the status page, not re-run)"))
             continue
-        ct = case_timeout * 20 if kind == "hang" else case_timeout
+        ct = min(case_timeout * 3, 120) if kind == "hang" else case_timeout
         r1 = run_only(exe, tier, idx, env, ct, extra)
         r2 = run_only(exe, tier, idx, env, ct, extra)
         if r1 is None and r2 is None:
